@@ -1,5 +1,6 @@
 """C17 — HyperLogLog state is a function of the set of distinct hashes."""
 from ..terms import TermBuilder, fmt, mk, const, subterms, linear, elem_of, erase_param_names
+from ..terms import callee_is as _nm
 from .common import SELF, self_field, methods_of, has_self_receiver, all_writes
 
 EXPLANATION = (
@@ -74,9 +75,9 @@ def run(ctx):
             kind = None
             if w["how"] == "store" and v is not None:
                 whole = "[]" not in w["path"]
-                if whole and v[0] == "call" and v[1].endswith("from_elem") and v[2][0] == const(0):
+                if whole and v[0] == "call" and _nm(v[1], "from_elem") and v[2][0] == const(0):
                     kind = "reset"
-                elif whole and v[0] == "call" and v[1].endswith("collect"):
+                elif whole and v[0] == "call" and _nm(v[1], "collect"):
                     e = erase_param_names(elem_of(v[2][0]))
                     if e[0] == "op" and e[1] == "max" and {repr(x) for x in e[2]} == {repr(("elem", ("field", ("param", 1, None), "registers"))), repr(("elem", ("field", ("param", 2, None), "registers")))}:
                         kind = "max"
@@ -302,9 +303,9 @@ def len_is_pow2_b(ctx):
             if w["how"] == "store" and "[]" in w["path"]:
                 continue
             v = w.get("value")
-            if w["how"] == "store" and v is not None and v[0] == "call" and v[1].endswith("from_elem") and (v[2][1] in lens or v[2][1] == mk("Shl", const(1), ("field", selfp, "b"))):
+            if w["how"] == "store" and v is not None and v[0] == "call" and _nm(v[1], "from_elem") and (v[2][1] in lens or v[2][1] == mk("Shl", const(1), ("field", selfp, "b"))):
                 continue
-            if w["how"] == "store" and v is not None and v[0] == "call" and v[1].endswith("collect"):
+            if w["how"] == "store" and v is not None and v[0] == "call" and _nm(v[1], "collect"):
                 from .common import cellwise_merge
                 if cellwise_merge(ctx, m, "registers")["form"] is not None:
                     continue
